@@ -8,10 +8,10 @@ Open Scope Z_scope.
 (* a quota with max/min declared in dimensions 0 and 1 *)
 Definition exq (name plabel : Z) (isp : bool) (mn0 mn1 mx0 mx1 : Z) : quota :=
   mkQuota name plabel isp 0 false false 0 false [] false [] []
-          [Some mn0; Some mn1] [Some mx0; Some mx1].
+          [Some mn0; Some mn1] [Some mx0; Some mx1] [].
 Definition with_ns (q : quota) (nss : list Z) : quota :=
   mkQuota (q_name q) (q_plabel q) (q_is_parent q) (q_tree q) (q_tree_root q) (q_force q) (q_sw q)
-          false nss (q_strict_bad q) (q_strict q) (q_used q) (q_min q) (q_max q).
+          false nss (q_strict_bad q) (q_strict q) (q_used q) (q_min q) (q_max q) (q_guar q).
 
 Definition A := exq 3 (-1) true 10 10 20 20.
 Definition B := exq 4 3 true 6 6 20 20.
@@ -20,73 +20,109 @@ Definition D := exq 6 3 true 4 4 20 20.
 
 (* a three-level tree is admitted, step by step *)
 Definition h_tree : list req := [([], Add A); ([], Add B); ([], Add C); ([], Add D)].
-Lemma ex_tree_accepted : map fst (trace init_topo h_tree) = [true; true; true; true].
+Lemma ex_tree_accepted : map fst (trace (init_topo (false, false)) h_tree) = [true; true; true; true].
 Proof. vm_compute. reflexivity. Qed.
 Lemma ex_tree_parents :
-  map (fun e => (fst e, i_parent (snd e))) (infos (run h_tree)) = [(3, 0); (4, 3); (5, 4); (6, 3)].
+  map (fun e => (fst e, i_parent (snd e))) (infos (run (false, false) h_tree)) = [(3, 0); (4, 3); (5, 4); (6, 3)].
 Proof. vm_compute. reflexivity. Qed.
 
 (* the defect of the pinned tree: making a quota a child of its own descendant is now rejected
    (A.parent := C, where C is below B below A), and the record is unchanged *)
 Definition A_under_C := exq 3 5 true 10 10 20 20.
 Lemma ex_cycle_rejected :
-  accepted (run h_tree) ([], Update A A_under_C) = false
-  /\ step (run h_tree) ([], Update A A_under_C) = run h_tree.
+  accepted (run (false, false) h_tree) ([], Update A A_under_C) = false
+  /\ step (run (false, false) h_tree) ([], Update A A_under_C) = run (false, false) h_tree.
 Proof. vm_compute. split; reflexivity. Qed.
 (* ... and so is the two-node cycle of the original report: add A, add B(A), A.parent := B *)
 Definition A_under_B := exq 3 4 true 10 10 20 20.
-Lemma ex_cycle2_rejected : accepted (run [([], Add A); ([], Add B)]) ([], Update A A_under_B) = false.
+Lemma ex_cycle2_rejected : accepted (run (false, false) [([], Add A); ([], Add B)]) ([], Update A A_under_B) = false.
 Proof. vm_compute. reflexivity. Qed.
 
 (* a legitimate re-parenting is admitted: C moves from B to D *)
 Definition C_under_D := exq 5 6 false 3 3 20 20.
 Lemma ex_reparent_accepted :
-  accepted (run h_tree) ([], Update C C_under_D) = true
-  /\ children (step (run h_tree) ([], Update C C_under_D)) 6 = [5]
-  /\ children (step (run h_tree) ([], Update C C_under_D)) 4 = [].
+  accepted (run (false, false) h_tree) ([], Update C C_under_D) = true
+  /\ children (step (run (false, false) h_tree) ([], Update C C_under_D)) 6 = [5]
+  /\ children (step (run (false, false) h_tree) ([], Update C C_under_D)) 4 = [].
 Proof. vm_compute. repeat split; reflexivity. Qed.
 
 (* children's mins must fit: B(6)+D(4) fill A's min 10, one more unit is refused *)
 Definition E := exq 7 3 false 1 0 20 20.
-Lemma ex_minsum_rejected : code (run h_tree) ([], Add E) = 4.
+Lemma ex_minsum_rejected : code (run (false, false) h_tree) ([], Add E) = 4.
 Proof. vm_compute. reflexivity. Qed.
 (* lowering A's min below its children's sum is refused, unless forced *)
 Definition A_low := exq 3 (-1) true 9 10 20 20.
-Lemma ex_parent_min_rejected : code (run h_tree) ([], Update A A_low) = 5.
+Lemma ex_parent_min_rejected : code (run (false, false) h_tree) ([], Update A A_low) = 5.
 Proof. vm_compute. reflexivity. Qed.
 
 (* a quota with children, or with pods, is not deleted; a leaf without pods is *)
 Lemma ex_delete_guard :
-  code (run h_tree) ([], Delete B) = 4
-  /\ code (run h_tree) ([(5, 1000)], Delete C) = 5
-  /\ code (run h_tree) ([], Delete C) = 0.
+  code (run (false, false) h_tree) ([], Delete B) = 4
+  /\ code (run (false, false) h_tree) ([(5, 1000)], Delete C) = 5
+  /\ code (run (false, false) h_tree) ([], Delete C) = 0.
 Proof. vm_compute. repeat split; reflexivity. Qed.
 
 (* a namespace is bound once *)
 Lemma ex_namespace_once :
-  code (run [([], Add (with_ns A [1000]))]) ([], Add (with_ns (exq 8 (-1) false 0 0 5 5) [1000])) = 2.
+  code (run (false, false) [([], Add (with_ns A [1000]))]) ([], Add (with_ns (exq 8 (-1) false 0 0 5 5) [1000])) = 2.
 Proof. vm_compute. reflexivity. Qed.
 
 (* the decision procedure is sensitive: a hand-made record with a parent cycle (3 <-> 4),
    a non-parent parent, an over-committed min, or a stale index entry is refused *)
-Definition inf (p : Z) (isp : bool) (mn : Z) : info := mkInfo p isp false 0 false [Some mn] [Some 20].
+Definition inf (p : Z) (isp : bool) (mn : Z) : info := mkInfo p isp false 0 false [Some mn] [Some 20] [].
 Lemma ex_wf_code_cycle :
-  wf_code (mkTopo [(3, inf 4 true 5); (4, inf 3 true 5)] [(0, []); (3, [4]); (4, [3])] []) = 12.
+  wf_code (mkTopo false false [(3, inf 4 true 5); (4, inf 3 true 5)] [(0, []); (3, [4]); (4, [3])] []) = 12.
 Proof. vm_compute. reflexivity. Qed.
 Lemma ex_wf_code_not_parent :
-  wf_code (mkTopo [(3, inf 0 false 5); (4, inf 3 false 5)] [(0, [3]); (3, [4]); (4, [])] []) = 11.
+  wf_code (mkTopo false false [(3, inf 0 false 5); (4, inf 3 false 5)] [(0, [3]); (3, [4]); (4, [])] []) = 11.
 Proof. vm_compute. reflexivity. Qed.
 Lemma ex_wf_code_minsum :
-  wf_code (mkTopo [(3, inf 0 true 5); (4, inf 3 false 3); (5, inf 3 false 3)]
+  wf_code (mkTopo false false [(3, inf 0 true 5); (4, inf 3 false 3); (5, inf 3 false 3)]
                   [(0, [3]); (3, [4; 5]); (4, []); (5, [])] []) = 14.
 Proof. vm_compute. reflexivity. Qed.
 Lemma ex_wf_code_index :
-  wf_code (mkTopo [(3, inf 0 true 5); (4, inf 3 false 3)] [(0, [3]); (3, []); (4, [])] []) = 17.
+  wf_code (mkTopo false false [(3, inf 0 true 5); (4, inf 3 false 3)] [(0, [3]); (3, []); (4, [])] []) = 17.
 Proof. vm_compute. reflexivity. Qed.
 
 (* consistent histories exist (hypothesis of the namespace theorem) *)
 Lemma ex_consistent :
-  snd (hist_state init_topo [] true
+  snd (hist_state (init_topo (false, false)) [] true
          [([], Add (with_ns A [1000])); ([], Update (with_ns A [1000]) (with_ns A [1001]));
           ([], Delete (with_ns A [1001]))]) = true.
 Proof. vm_compute. reflexivity. Qed.
+
+(* FINDING (findings/C15-delete-ignores-namespace-bound-pods.md): a quota is deleted although a
+   pod is bound to it through a namespace it declares — ValidDeleteQuota lists pods by the
+   quota-name label only, hasQuotaBoundedPods (used for the is-parent flip) would find it *)
+Definition Qns := with_ns (exq 3 (-1) false 1 1 20 20) [1000].
+Definition h_nsdel : list req := [([], Add Qns); ([(-1, 1000)], Delete Qns)].
+Lemma ex_delete_nsbound :
+  accepted (run (false, false) [([], Add Qns)]) ([(-1, 1000)], Delete Qns) = true
+  /\ has_pods [(-1, 1000)] (q_name Qns) (ann_ns Qns) = true.
+Proof. vm_compute. split; reflexivity. Qed.
+Lemma ex_prop_code_21 : prop_code (false, false) h_nsdel (trace (init_topo (false, false)) h_nsdel) = 21.
+Proof. vm_compute. reflexivity. Qed.
+(* the same deletion is refused when the quota's is-parent flag is flipped instead *)
+Lemma ex_flip_nsbound_rejected :
+  code (run (false, false) [([], Add Qns)])
+       ([(-1, 1000)], Update Qns (with_ns (exq 3 (-1) true 1 1 20 20) [1000])) = 5.
+Proof. vm_compute. reflexivity. Qed.
+
+(* the feature gate ElasticQuotaEnableUpdateResourceKey: a child declaring fewer max dimensions
+   than its parent is refused with the gate off and admitted with it on *)
+Definition F1 := mkQuota 4 3 false 0 false false 0 false [] false [] [] [Some 1] [Some 20] [].
+Lemma ex_gate_keys :
+  code (run (false, false) [([], Add A)]) ([], Add F1) = 4 /\ code (run (true, false) [([], Add A)]) ([], Add F1) = 0.
+Proof. vm_compute. split; reflexivity. Qed.
+
+(* the feature gate ElasticQuotaGuaranteeUsage: inside a tree (tree id 1) a child's min must be
+   covered by what its parent is guaranteed; T is guaranteed its min 10, so a child with min 5
+   is admitted, one with min 11 is not (nor is it without the gate: 11 > T's min) *)
+Definition T := mkQuota 3 (-1) true 1 true false 0 false [] false [] [] [Some 10] [Some 20] [Some 10].
+Definition T0 := mkQuota 3 (-1) true 1 true false 0 false [] false [] [] [Some 10] [Some 20] [Some 4].
+Definition K5 := mkQuota 4 3 false 1 false false 0 false [] false [] [] [Some 5] [Some 20] [].
+Lemma ex_gate_guar :
+  code (run (false, true) [([], Add T)]) ([], Add K5) = 0
+  /\ code (run (false, true) [([], Add T0)]) ([], Add K5) = 4
+  /\ code (run (false, false) [([], Add T0)]) ([], Add K5) = 0.
+Proof. vm_compute. repeat split; reflexivity. Qed.
